@@ -257,6 +257,9 @@ def run(tier, seed):
         if mapset(o["to_map"]) != mapset(want_map):
             (v.violation if not c["dup"] else v.add_drift)("proplist_to_map does not hold the entries of the proplist" + (" (duplicate keys: the spec takes the last occurrence, as coded)" if c["dup"] else ""),
                                                           {**case, "got": o["to_map"], "expected_entries": c["map"]})
+        if c["well_formed"] and mapset(o["to_map"]) != mapset(o["to_map_of_normalized"]):
+            v.violation("proplist_to_map treats a bare atom differently from the pair {Atom, true} it stands for (the list and its normal form convert to different maps)",
+                        {**case, "map_of_the_list": o["to_map"], "map_of_its_normal_form": o["to_map_of_normalized"]})
         if o["map_to_proplist"] is None or o["map_again"] is None or mapset(o["map_again"]) != mapset(o["to_map"]):
             v.violation("map -> proplist -> map is not the identity", {**case, "map": o["to_map"], "proplist": o["map_to_proplist"]})
         else:
